@@ -31,6 +31,7 @@ type Spec struct {
 	Recs     []IRec
 	MinShift int // CSI
 	Depth    int // CSI
+	Origin   int // where the first chunk begins: 0 {101,7} (after a header), 1 {0,0} (a file without header), 2 {0,5}
 }
 
 const MaxPos = 1<<29 - 2 // largest End the BAI scheme accepts
@@ -46,6 +47,12 @@ func (s Spec) Limit() int {
 // Layout assigns monotone chunks (Begin_i = End_{i-1}).
 func (s Spec) Layout() []bgzf.Chunk {
 	cur := bgzf.Offset{File: 101, Block: 7}
+	switch s.Origin {
+	case 1:
+		cur = bgzf.Offset{}
+	case 2:
+		cur = bgzf.Offset{Block: 5}
+	}
 	out := make([]bgzf.Chunk, len(s.Recs))
 	for i, r := range s.Recs {
 		next := cur
@@ -127,7 +134,7 @@ func lenGen(start, limit, minShift int) *rapid.Generator[int] {
 // SpecGen draws a sorted record set. csiGeom=false fixes the BAI geometry.
 func SpecGen(csiGeom bool, maxRecs int) *rapid.Generator[Spec] {
 	return rapid.Custom(func(t *rapid.T) Spec {
-		s := Spec{NRefs: rapid.IntRange(1, 4).Draw(t, "nrefs"), MinShift: 14}
+		s := Spec{NRefs: rapid.IntRange(1, 4).Draw(t, "nrefs"), MinShift: 14, Origin: rapid.SampledFrom([]int{0, 0, 1, 1, 2}).Draw(t, "origin")}
 		if csiGeom {
 			// ranges up to 2^40 (coordinates beyond 32 bits are legal in CSI). The depth
 			// stays at 6: a whole-range query lists (8^(depth+1)-1)/7 bins.
